@@ -6,10 +6,14 @@
 package main
 
 import (
+	"fmt"
 	"os"
+	"sort"
 	"strconv"
 	"strings"
 	"time"
+
+	"github.com/kardiachain/go-kardia/consensus"
 
 	"verif/mc/report"
 	"verif/netsim"
@@ -55,6 +59,7 @@ func main() {
 		Full: &netsim.FullSpec{Genesis: loadShipped("cmd/cfg/genesis_testnet.yaml", true), Keys: []int{3, 4, 5}}}), Bound: 1})
 	scen = append(scen, netsim.Scenario{Cfg: mk("shipped-devnet-genesis", []int64{1, 1, 1}, netsim.Config{NoByzMenu: true, TargetHeight: 1,
 		Full: &netsim.FullSpec{Genesis: loadShipped("deployment/local/genesis_devnet.yaml", false), Keys: []int{3, 4, 5}}}), Bound: 0})
+	bindTicker(r)
 	dl := 10 * time.Minute
 	if r.Thorough() {
 		dl = 30 * time.Minute
@@ -71,7 +76,51 @@ func main() {
 	r.Set("rule", "every execution of the netsim harness with at most `completed_bound` deviations, followed by the default synchronous schedule to completion; "+
 		"horizon 20 x validators rounds; non-trivial = ran to a terminal outcome (not cut by state-key pruning)")
 	r.Assume("re-gossip is modelled as: whatever a correct peer's RoundState / block store holds for the receiver's height is deliverable (mirrors gossipDataRoutine / gossipVotesRoutine)",
-		"the recording ticker is a transcription of timeoutTicker.timeoutRoutine's supersede rule; real-time timer behaviour is not covered",
+		"the recording ticker follows the supersede rule MEASURED on the real timeoutTicker at start-up (1600 classes: height and round differences -2..+2 x every pair of steps; differences beyond 2 are assumed to behave like 2); wall-clock durations are not modelled",
 		"own messages are handled immediately after the step that produced them")
 	r.Finish()
+}
+
+// bindTicker measures the supersede rule of the REAL consensus.timeoutTicker of this tree and makes every
+// recording ticker of the explored networks follow it, so that what is explored is the liveness of the
+// consensus code with the ticker it actually has. A ticker that loses a timeout altogether is a violation by
+// itself (nothing would ever move the node out of a step).
+func bindTicker(r *report.Run) {
+	rule, problems := consensus.VerifMeasureTicker(60 * time.Second)
+	for _, p := range problems {
+		kind := "ticker-loses-timeout"
+		if strings.Contains(p, "content") {
+			kind = "ticker-tock-content"
+		}
+		key := strings.SplitN(p, ":", 2)[0]
+		r.Violation("C04|part=ticker|oracle="+kind+"|case="+key, "the real timeoutTicker: "+p, map[string]interface{}{"part": "ticker", "problem": p})
+	}
+	if rule == nil {
+		return
+	}
+	consensus.VerifInstallTickerRule(rule)
+	same := true
+	tr := consensus.VerifTranscribedTickerRule()
+	var diff []string
+	for k, v := range tr {
+		if rule[k] != v {
+			same = false
+			diff = append(diff, fmt.Sprintf("%s: pinned=%v measured=%v", k, v, rule[k]))
+		}
+	}
+	sort.Strings(diff)
+	acc := 0
+	for _, v := range rule {
+		if v {
+			acc++
+		}
+	}
+	r.Set("ticker_rule_classes", len(rule))
+	r.Set("ticker_rule_classes_accepting", acc)
+	r.Set("ticker_rule_equals_pinned_transcription", same)
+	if !same {
+		r.Set("ticker_rule_differences", diff)
+		fmt.Printf("note: the real ticker's supersede rule differs from the pinned commit's (%s); the explored networks use the measured rule\n", strings.Join(diff, "; "))
+	}
+	r.Add("ticker_experiments", int64(1+2*len(rule)))
 }
